@@ -21,7 +21,8 @@
   input word is `< q` (true of sampler output and of secret keys).
 
   Structure follows the Go code:
-    `horner`/`evalPolyScalarRow`   ring.EvalPolyScalar (Horner from the last coefficient)
+    `evalPolyScalarRows` (`horner` = its action on one word)
+                                   ring.EvalPolyScalar (Horner from the last coefficient)
     `subMod`, `powMod`, `inverse`  ring.SubRNSScalar, ring.ModexpMontgomery (square-and-multiply,
                                    exponent q−2), ring.Inverse
     `lagrangeCoeff`                Combiner.lagrangeCoeff (this, that ↦ that/(that−this))
@@ -29,6 +30,7 @@
     `genAdditiveShare`             Combiner.GenAdditiveShare (error rule, "first t" rule, map
                                    miss ⇒ nil slice ⇒ panic)
     `genShamirPolynomial`, `genShamirSecretShare`, `aggregateShares`   Thresholdizer.*
+    `partyAdditiveShare`, `thresholdRun`   the reconstruction run of `testThreshold` (driver op `run`)
   Core Lean only.
 -/
 namespace Lattigo.Model.Shamir
